@@ -13,6 +13,7 @@ from liquid.builtin.expressions import PositionalArgument
 from liquid.builtin.expressions import parse_primitive
 from liquid.exceptions import LiquidSyntaxError
 from liquid.stringify import to_liquid_string
+from liquid.stringify import to_python_string
 from liquid.tag import Tag
 from liquid.token import TOKEN_COLON
 from liquid.token import TOKEN_TAG
@@ -54,7 +55,11 @@ class CycleNode(Node):
         """Render the node to the output buffer."""
         if self.group:
             _group = self.group.evaluate(context)
-            group_name = "__UNDEFINED" if is_undefined(_group) else str(_group)
+            group_name = (
+                "__UNDEFINED"
+                if is_undefined(_group)
+                else to_python_string(_group, token=self.token)
+            )
         else:
             group_name = ""
 
@@ -63,7 +68,11 @@ class CycleNode(Node):
         if self.group_by_args:
             key: object = (group_name, tuple(args))
         else:
-            key = group_name if group_name else str(args)
+            key = (
+                group_name
+                if group_name
+                else to_python_string(args, token=self.token)
+            )
 
         index = context.cycle(key, len(args))
 
@@ -80,7 +89,11 @@ class CycleNode(Node):
         """Render the node to the output buffer."""
         if self.group:
             _group = await self.group.evaluate_async(context)
-            group_name = "__UNDEFINED" if is_undefined(_group) else str(_group)
+            group_name = (
+                "__UNDEFINED"
+                if is_undefined(_group)
+                else to_python_string(_group, token=self.token)
+            )
         else:
             group_name = ""
 
@@ -89,7 +102,11 @@ class CycleNode(Node):
         if self.group_by_args:
             key: object = (group_name, tuple(args))
         else:
-            key = group_name if group_name else str(args)
+            key = (
+                group_name
+                if group_name
+                else to_python_string(args, token=self.token)
+            )
 
         index = context.cycle(key, len(args))
 
